@@ -103,6 +103,8 @@ impl C06 {
         fams.add("substances", vec![substances.len() as u64, 4]);
         fams.add("dimensionless conversion targets with constants", vec![DIMLESS.len() as u64]);
         fams.add("a CGS-style database in which newton, joule, ... are not 1 in base units", vec![CGS_QUERIES.len() as u64]);
+        fams.add("unit lists over prefixed members: every entry as displayed", vec![LIST_QUERIES.len() as u64]);
+        fams.add("counted substance converted to a unit: every listed property against `property of (N substance) -> unit`", vec![substances.len() as u64, SUBST_COUNTS.len() as u64, SUBST_TARGETS.len() as u64]);
         C06 { fams, units, base, mags, combos, core, substances, dump, ctx: Lazy::new(), cgs: Lazy::new() }
     }
 }
@@ -341,6 +343,16 @@ const CGS_QUERIES: [&str; 30] = [
     "1 ohm", "1 hertz", "1|3 joule", "1e-9 newton", "1e12 g cm / s^2", "2 newton cm", "3 joule / s", "1 g cm^2 / (s^3 A^2)", "0.5 pascal cm^2", "1e6 g",
 ];
 
+/// Unit lists whose members already carry a prefix, with values large and small against them:
+/// each entry's printed numeral x printed unit must be the entry's own part.
+const LIST_QUERIES: [&str; 14] = [
+    "5000 s -> ms;us", "123456789 s -> ms;us", "2000 m -> mm;um", "0.002 s -> ms;us", "5000000 m -> km;m;mm", "1e9 s -> hour;min;s", "12345.678 kg -> kg;g;mg",
+    "1e7 g -> g;mg", "3 GiB -> MiB;KiB;byte", "1e12 byte -> kB;byte", "7.5 mile -> mile;yard;ft;inch", "1e-7 m -> um;nm", "1e15 s -> year;day;s", "5000 m -> m;mm",
+];
+
+const SUBST_COUNTS: [&str; 3] = ["1", "12", "(1|4)"];
+const SUBST_TARGETS: [&str; 8] = ["kg", "m", "J", "coulomb", "m^3", "s", "K", "kg/m^3"];
+
 const MODES: [&str; 7] = ["digits 10", "digits", "sci", "eng", "frac", "base 16", "digits 3 base 7"];
 
 impl C06 {
@@ -410,7 +422,7 @@ impl Space for C06 {
         Meta {
             id: "C06",
             level: "exploration",
-            rule: "(a) every exact registry unit and base unit x magnitudes {0.999, 1, 1000} x 10^(3k) (every SI-prefix boundary, k in -10..10 thorough) x powers {1,2,3,-1}; (b) every product of up to 3 (thorough 4) distinct base units with exponents in {-2,-1,1,2} (all derived-unit regroupings) x {1, 1500}; (c) conversions of 3 values into 19 target shapes (constants, 1|3, sign, squares, products, quotients, sums, differences, mod, and/or/xor and shift constants, non-round constants of ten and more digits as factor and as divisor, constants under a non-integer power - shown consistently or refused) over a 10-unit core; (d) digits/sci/eng/frac/base modes; (e2) 30 results in a second, CGS-style database in which newton, joule, pascal, watt, ... are not worth 1 in base units (regrouping and prefix logic must not assume the bundled values); (e) every substance x 4 amounts, every reported property and unit-list/duration entry. Oracle: the reply's numeral (independent reader) x factor/divfactor x product of the printed unit names resolved with Context::lookup must equal the quantity computed by the harness from the registry dump, exactly for exact numerals and within one last-digit unit otherwise; raw_dimensions and quantity must be those of the result. Non-trivial = a numeric reply was judged; distinct by query text".into(),
+            rule: "(a) every exact registry unit and base unit x magnitudes {0.999, 1, 1000} x 10^(3k) (every SI-prefix boundary, k in -10..10 thorough) x powers {1,2,3,-1}; (b) every product of up to 3 (thorough 4) distinct base units with exponents in {-2,-1,1,2} (all derived-unit regroupings) x {1, 1500}; (c) conversions of 3 values into 19 target shapes (constants, 1|3, sign, squares, products, quotients, sums, differences, mod, and/or/xor and shift constants, non-round constants of ten and more digits as factor and as divisor, constants under a non-integer power - shown consistently or refused) over a 10-unit core; (d) digits/sci/eng/frac/base modes; (e2) 30 results in a second, CGS-style database in which newton, joule, pascal, watt, ... are not worth 1 in base units (regrouping and prefix logic must not assume the bundled values); (e3) 14 unit lists over members that already carry a prefix (ms;us, mm;um, MiB;KiB;byte ...) with values large and small against them: every entry's printed numeral x printed unit is the entry's own part; (e4) every substance x counts {1, 12, 1|4} x 8 target units: each property listed by `N substance -> unit` must print the same as `property of (N substance) -> unit`; (e) every substance x 4 amounts, every reported property and unit-list/duration entry. Oracle: the reply's numeral (independent reader) x factor/divfactor x product of the printed unit names resolved with Context::lookup must equal the quantity computed by the harness from the registry dump, exactly for exact numerals and within one last-digit unit otherwise; raw_dimensions and quantity must be those of the result. Non-trivial = a numeric reply was judged; distinct by query text".into(),
             assumptions: vec![
                 "temperature-scale replies are decided by C10".into(),
                 "float-valued units are skipped".into(),
@@ -427,6 +439,13 @@ impl Space for C06 {
         if self.fams.locate(idx).0 == 6 {
             return format!("CGS database: {}", CGS_QUERIES[self.fams.locate(idx).1[0] as usize]);
         }
+        if self.fams.locate(idx).0 == 7 {
+            return LIST_QUERIES[self.fams.locate(idx).1[0] as usize].to_string();
+        }
+        if self.fams.locate(idx).0 == 8 {
+            let d = self.fams.locate(idx).1;
+            return format!("{} {} -> {}", SUBST_COUNTS[d[1] as usize], self.substances[d[0] as usize], SUBST_TARGETS[d[2] as usize]);
+        }
         self.query(idx).map(|q| q.0).unwrap_or_else(|| "(skipped)".into())
     }
     fn sample_indices(&self) -> Vec<u64> {
@@ -440,6 +459,81 @@ impl Space for C06 {
         self.cgs.clear();
     }
     fn run(&mut self, idx: u64) -> CaseOut {
+        if self.fams.locate(idx).0 == 8 {
+            let d = self.fams.locate(idx).1;
+            let s = &self.substances[d[0] as usize];
+            if !regdump::addressable(s) {
+                return CaseOut::ok("skipped");
+            }
+            let (n, u) = (SUBST_COUNTS[d[1] as usize], SUBST_TARGETS[d[2] as usize]);
+            let q = format!("{} {} -> {}", n, regdump::q(s), u);
+            let ctx = self.ctx.get(fresh_ctx);
+            let mut out = CaseOut::ok("counted substance conversion").key(hash64(&q));
+            match eval_q(ctx, &q) {
+                Ok(QueryReply::Substance(r)) => {
+                    let mut judged = 0;
+                    for pr in &r.properties {
+                        // the same figure by the other route: the single-property query
+                        let q2 = format!("{} of ({} {}) -> {}", regdump::q(&pr.name), n, regdump::q(s), u);
+                        if let Ok(QueryReply::Conversion(c)) = eval_q(ctx, &q2) {
+                            judged += 1;
+                            let a = (&pr.value.exact_value, &pr.value.approx_value, &pr.value.unit, &pr.value.factor, &pr.value.divfactor);
+                            let b = (&c.value.exact_value, &c.value.approx_value, &c.value.unit, &c.value.factor, &c.value.divfactor);
+                            if a != b {
+                                out = out.viol(
+                                    "a property listed for a counted substance differs from the same property asked for alone",
+                                    format!("`{}` lists {} = {} but `{}` gives {}", q, pr.name, pr.value, q2, c.value),
+                                );
+                            }
+                        }
+                    }
+                    if judged == 0 {
+                        out.outcome = "counted substance conversion (nothing comparable)".into();
+                        out.key = None;
+                    }
+                }
+                _ => {
+                    out.outcome = "counted substance conversion refused / other".into();
+                    out.key = None;
+                }
+            }
+            return out;
+        }
+        if self.fams.locate(idx).0 == 7 {
+            let q = LIST_QUERIES[self.fams.locate(idx).1[0] as usize];
+            let ctx = self.ctx.get(fresh_ctx);
+            let mut out = CaseOut::ok("unit list entries").key(hash64(&("list", q)));
+            match eval_q(ctx, q) {
+                Ok(QueryReply::UnitList(l)) => {
+                    for e in &l.list {
+                        let raw = match &e.raw_value {
+                            Some(r) => r,
+                            None => {
+                                out = out.viol("unit-list entry without a raw value", q.to_string());
+                                continue;
+                            }
+                        };
+                        let part = match numeric_to_rat(&raw.value) {
+                            Some(p) => p,
+                            None => continue,
+                        };
+                        let uname: Vec<String> = raw.unit.iter().map(|(k, _)| k.to_string()).collect();
+                        match uname.first().and_then(|n| ctx.lookup(n)).and_then(|uv| numeric_to_rat(&uv.value).map(|v| (v, dims_of(&uv)))) {
+                            Some((uv, ud)) => {
+                                let w = (part * uv, ud);
+                                for (sg, dt) in judge_parts(ctx, e, &w, 10, true, &format!("{} [entry {}]", q, uname[0])) {
+                                    out = out.viol(format!("{} (unit-list entry)", sg), dt);
+                                }
+                            }
+                            None => out = out.viol("unit-list entry's own unit does not resolve", format!("{}: {:?}", q, uname)),
+                        }
+                    }
+                }
+                Ok(o) => out = out.viol("unit list not answered as a list", format!("`{}` -> {}", q, reply_kind(&o))),
+                Err(e) => out = out.viol("unit list refused", format!("`{}`: {}", q, e)),
+            }
+            return out;
+        }
         if self.fams.locate(idx).0 == 6 {
             let q = CGS_QUERIES[self.fams.locate(idx).1[0] as usize];
             let ctx = self.cgs.get(|| {
